@@ -8,10 +8,25 @@
 //	Cs  Ce:ms           Close (or CloseAllowingRebalance) called / returned after ms of virtual time
 //	Pc:closed|other     what a poll after Close returned
 //	Rp:id:e             result of a produce after Close
+//	S:what              (slot scenarios) something that stops or reshapes the consumer session was done; not judged
+//	L:n:g1,g2,…         after Close, after every other client of the scenario was closed and after 5 s of virtual time:
+//	                    n goroutines of this bubble still have a pkg/kgo frame; g = state/function@file#line<created-by
 //	Q
 //
-// A goroutine of the client still blocked when the scenario ends makes the synctest bubble panic
-// ("blocked goroutines remain"); the harness reports that as the scenario outcome PANIC:…
+// A goroutine of the client still blocked when the scenario ends also makes the synctest bubble panic
+// ("blocked goroutines remain"); the harness reports that as the scenario outcome PANIC:… with the history so far
+// (which then contains the L event naming the goroutine) as its tail.
+//
+// Slot scenarios (C13b; 9 tokens):
+//
+// op:   cls <seed> <kind 4 direct topic|5 direct partitions|6 group> <brokers 3-8> <closeat ms> <brokermode> <blockpoll> <maxfetch 1-3> <stops>
+//
+// a consumer with kgo.MaxConcurrentFetches(maxfetch) on a cluster where every broker leads one or two partitions of
+// the topic (more fetch sources than fetch slots), records flowing on every partition. Polls hand freed slots to the
+// waiting sources; right behind a poll (after a few Gosched calls or some real spinning, so that it lands while the
+// slot is being handed over) the session is stopped: by SetOffsets, RemoveConsumePartitions/AddConsumePartitions,
+// a second member joining or leaving the group — `stops` times — and finally by Close itself, called either by the
+// poller right behind its poll or concurrently with it.
 package main
 
 import (
@@ -19,7 +34,9 @@ import (
 	"errors"
 	"fmt"
 	"net"
+	"runtime"
 	"strconv"
+	"strings"
 	"sync"
 	"sync/atomic"
 	"testing"
@@ -37,11 +54,35 @@ func genCls(a hx.Args) {
 	r := hx.NewRng(a.Seed)
 	n := a.N(600, 4000)
 	for i := 0; i < n; i++ {
+		if i%3 == 0 { // slot scenarios (C13b)
+			mode := 0
+			if r.Chance(25) {
+				mode = 1 + r.Intn(2)
+			}
+			hx.Emit("cls %d %d %d %d %d %d %d %d", r.U64()%1000000, 4+r.Intn(3), 3+r.Intn(6), r.Intn(500), mode, r.Intn(2), 1+r.Intn(3), r.Intn(17))
+			continue
+		}
 		hx.Emit("cls %d %d %d %d %d %d", r.U64()%1000000, r.Intn(4), 1+r.Intn(3), r.Intn(1500), r.Intn(3), r.Intn(2))
 	}
 }
 
+// leftoverEvent is the L event: goroutines of this bubble that still have a pkg/kgo frame. It is called when every
+// client of the scenario has been closed; the kfake cluster is still up (its goroutines have no kgo frame).
+func leftoverEvent(log *sim.Log) int {
+	synctest.Wait()
+	gs := sim.Leftover("franz-go/pkg/kgo.")
+	n := len(gs)
+	if n > 4 {
+		gs = append(gs[:4], "…")
+	}
+	log.Add("L:%d:%s", n, strings.Join(gs, ","))
+	return n
+}
+
 func runCls(t *testing.T, tk []string) string {
+	if tk[0] == "cls" && len(tk) == 9 {
+		return runClsSlots(t, tk)
+	}
 	if tk[0] != "cls" || len(tk) != 7 {
 		return "bad-op"
 	}
@@ -50,7 +91,12 @@ func runCls(t *testing.T, tk []string) string {
 	log := &sim.Log{}
 	partial := func() string { return log.String() }
 	sim.Partial.Store(&partial)
-	defer sim.Partial.Store(nil)
+	leftover := 0
+	defer func() {
+		if leftover == 0 { // otherwise the bubble is about to panic: the history (with its L event) stays available as the tail
+			sim.Partial.Store(nil)
+		}
+	}()
 	net_ := &sim.Net{}
 	var down atomic.Bool
 	net_.Fault = func(key int16, nth int, frame []byte) sim.Action {
@@ -291,8 +337,392 @@ func runCls(t *testing.T, tk []string) string {
 	cancel()
 	synctest.Wait()
 	time.Sleep(5 * time.Second)
-	synctest.Wait()
+	leftover = leftoverEvent(log)
 	log.Add("Q")
 	hx.St.Inc(fmt.Sprintf("scen.cls.kind%d.mode%d", kind, mode))
+	return fmt.Sprintf("cfg:%d:%d ", kind, mode) + log.String()
+}
+
+var spinSink atomic.Int64
+
+// realPause lets a little *real* time pass without the bubble's clock moving: how = 0 nothing, 1-4 that many
+// runtime.Gosched calls, otherwise a counted busy loop (time.Now is virtual inside a bubble, so the loop is counted).
+func realPause(how int) {
+	switch {
+	case how <= 0:
+	case how <= 4:
+		for i := 0; i < how; i++ {
+			runtime.Gosched()
+		}
+	default:
+		var x int64
+		for i := 0; i < how; i++ {
+			x += int64(i) ^ x>>3
+		}
+		spinSink.Add(x)
+	}
+}
+
+func pickPause(r *hx.Rng) int {
+	switch r.Intn(4) {
+	case 0:
+		return 0
+	case 1:
+		return 1 + r.Intn(4)
+	case 2:
+		return 5 + r.Intn(3000) // up to a few microseconds
+	}
+	return 3000 + r.Intn(60000) // up to some tens of microseconds
+}
+
+func runClsSlots(t *testing.T, tk []string) string {
+	seed := uint64(hx.Atoi(tk[1]))
+	kind, brokers, closeat, mode, blockpoll := int(hx.Atoi(tk[2])), int(hx.Atoi(tk[3])), int(hx.Atoi(tk[4])), int(hx.Atoi(tk[5])), tk[6] == "1"
+	maxFetch, stops := int(hx.Atoi(tk[7])), int(hx.Atoi(tk[8]))
+	if kind < 4 || kind > 6 || brokers < 1 || brokers > 12 || maxFetch < 0 {
+		return "bad-op"
+	}
+	group := kind == 6
+	blockpoll = blockpoll && group
+	log := &sim.Log{}
+	partial := func() string { return log.String() }
+	sim.Partial.Store(&partial)
+	leftover := 0
+	defer func() {
+		if leftover == 0 { // otherwise the bubble is about to panic: the history (with its L event) stays available as the tail
+			sim.Partial.Store(nil)
+		}
+	}()
+	net_ := &sim.Net{}
+	var down atomic.Bool
+	net_.Fault = func(key int16, nth int, frame []byte) sim.Action {
+		if down.Load() {
+			return sim.KillBefore
+		}
+		return sim.Pass
+	}
+	ports := make([]int, brokers)
+	base := int(9000 + (portBase.Add(1)%500)*10)
+	if brokers > 10 {
+		portBase.Add(1)
+	}
+	for i := range ports {
+		ports[i] = base + i
+	}
+	rng := hx.NewRng(seed)
+	nparts := int32(brokers * (1 + rng.Intn(2)))
+	cluster, err := kfake.NewCluster(kfake.NumBrokers(brokers), kfake.Ports(ports...), kfake.SeedTopics(nparts, "t"),
+		kfake.ListenFn(net_.ListenFn))
+	if err != nil {
+		return "ERR:cluster:" + err.Error()
+	}
+	defer cluster.Close()
+	for p := int32(0); p < nparts; p++ { // every broker leads a partition: every broker is a fetch source
+		if err := cluster.MoveTopicPartition("t", p, p%int32(brokers)); err != nil {
+			return "ERR:move:" + err.Error()
+		}
+	}
+	var slow atomic.Bool
+	srng := hx.NewRng(seed*41 + 1)
+	if mode == 1 {
+		cluster.Control(func(kmsg.Request) (kmsg.Response, error, bool) {
+			cluster.KeepControl()
+			if slow.Load() {
+				// every request is delayed on its own (other connections are served meanwhile): with up to 8 brokers, a
+				// second member and a producer, delays served one after the other by kfake's single loop would add up
+				// to minutes for the handful of requests Close has to make
+				d := time.Duration(100+srng.Intn(900)) * time.Millisecond
+				cluster.SleepControl(func() { time.Sleep(d) })
+			}
+			return nil, nil, false
+		})
+	}
+	dial := func(ctx context.Context, network, addr string) (net.Conn, error) {
+		if down.Load() {
+			select {
+			case <-time.After(5 * time.Millisecond):
+			case <-ctx.Done():
+				return nil, ctx.Err()
+			}
+			return nil, errors.New("unreachable")
+		}
+		return net_.Stack.DialContext(ctx, network, addr)
+	}
+	ctx, cancel := context.WithCancel(context.Background())
+	defer cancel()
+	backoff := kgo.RetryBackoffFn(func(int) time.Duration { return 20 * time.Millisecond })
+
+	// records on every partition before the consumer starts, and a trickle afterwards, so that fetches complete and
+	// slots change hands all the time
+	adm, err := kgo.NewClient(kgo.SeedBrokers(cluster.ListenAddrs()...), kgo.Dialer(net_.Stack.DialContext),
+		kgo.RecordPartitioner(kgo.ManualPartitioner()), backoff)
+	if err != nil {
+		return "ERR:adm:" + err.Error()
+	}
+	{
+		var recs []*kgo.Record
+		for p := int32(0); p < nparts; p++ {
+			for i := 0; i < 2+rng.Intn(4); i++ {
+				recs = append(recs, &kgo.Record{Topic: "t", Partition: p, Value: []byte("v")})
+			}
+		}
+		sctx, sc := context.WithTimeout(ctx, 20*time.Second)
+		err := adm.ProduceSync(sctx, recs...).FirstErr()
+		sc()
+		if err != nil {
+			adm.Close()
+			return "ERR:seed:" + err.Error()
+		}
+	}
+	var wg sync.WaitGroup
+	stop := make(chan struct{})
+	wg.Add(1)
+	go func() {
+		defer wg.Done()
+		defer adm.Close()
+		fr := hx.NewRng(seed*29 + 3)
+		for {
+			select {
+			case <-stop:
+				return
+			default:
+			}
+			for p := int32(0); p < nparts; p++ {
+				adm.Produce(ctx, &kgo.Record{Topic: "t", Partition: p, Value: []byte("w")}, nil)
+			}
+			time.Sleep(time.Duration(2+fr.Intn(25)) * time.Millisecond)
+		}
+	}()
+
+	opts := []kgo.Opt{kgo.SeedBrokers(cluster.ListenAddrs()...), kgo.Dialer(dial), backoff,
+		kgo.MaxConcurrentFetches(maxFetch), kgo.FetchMaxWait(time.Duration(20+rng.Intn(80)) * time.Millisecond),
+		kgo.ConsumeResetOffset(kgo.NewOffset().AtStart())}
+	allParts := func(o kgo.Offset) map[string]map[int32]kgo.Offset {
+		m := map[int32]kgo.Offset{}
+		for p := int32(0); p < nparts; p++ {
+			m[p] = o
+		}
+		return map[string]map[int32]kgo.Offset{"t": m}
+	}
+	groupOpts := []kgo.Opt{kgo.ConsumerGroup("g"), kgo.ConsumeTopics("t"), kgo.SessionTimeout(6 * time.Second),
+		kgo.HeartbeatInterval(300 * time.Millisecond), kgo.RebalanceTimeout(4 * time.Second)}
+	switch kind {
+	case 4:
+		opts = append(opts, kgo.ConsumeTopics("t"))
+	case 5:
+		opts = append(opts, kgo.ConsumePartitions(allParts(kgo.NewOffset().AtStart())))
+	case 6:
+		opts = append(opts, groupOpts...)
+		opts = append(opts, kgo.AutoCommitInterval(200*time.Millisecond))
+		if rng.Chance(40) {
+			opts = append(opts, kgo.Balancers(kgo.RangeBalancer())) // eager: every rebalance revokes everything
+		}
+		if blockpoll {
+			opts = append(opts, kgo.BlockRebalanceOnPoll())
+		}
+	}
+	cl, err := kgo.NewClient(opts...)
+	if err != nil {
+		close(stop)
+		wg.Wait()
+		return "ERR:client:" + err.Error()
+	}
+	if group {
+		// a second member that joins and leaves again and again: every change of the group stops the session of the
+		// client under test
+		wg.Add(1)
+		go func() {
+			defer wg.Done()
+			mr := hx.NewRng(seed*31 + 7)
+			for {
+				select {
+				case <-stop:
+					return
+				case <-time.After(time.Duration(mr.Intn(150)) * time.Millisecond):
+				}
+				c2, err := kgo.NewClient(append([]kgo.Opt{kgo.SeedBrokers(cluster.ListenAddrs()...), kgo.Dialer(net_.Stack.DialContext),
+					kgo.FetchMaxWait(100 * time.Millisecond)}, groupOpts...)...)
+				if err != nil {
+					return
+				}
+				hx.St.Inc("scen.cls.slots.member2-joins")
+				until := time.Now().Add(time.Duration(50+mr.Intn(400)) * time.Millisecond)
+				for time.Now().Before(until) {
+					select {
+					case <-stop:
+						c2.Close()
+						return
+					default:
+					}
+					pctx, pc := context.WithTimeout(ctx, 100*time.Millisecond)
+					c2.PollFetches(pctx)
+					pc()
+				}
+				c2.Close()
+			}
+		}()
+	}
+
+	// the poller: polls, and right behind a poll that returned records stops the session `stops` times; when told
+	// to, it closes the client right behind a poll
+	var (
+		closeReq   atomic.Bool // set by the main goroutine when it is time to close
+		closerIsMe = rng.Chance(60)
+		closedCh   = make(chan struct{})
+		polls      atomic.Int64
+		gotRecs    atomic.Int64
+		stopsLeft  = stops
+	)
+	doClose := func() {
+		log.Add("Cs")
+		t0 := time.Now()
+		if blockpoll {
+			cl.CloseAllowingRebalance()
+		} else {
+			cl.Close()
+		}
+		log.Add("Ce:%d", time.Since(t0).Milliseconds())
+		close(closedCh)
+	}
+	stopSession := func(pr *hx.Rng) {
+		some := func() []int32 {
+			var ps []int32
+			for p := int32(0); p < nparts; p++ {
+				if pr.Chance(50) {
+					ps = append(ps, p)
+				}
+			}
+			if len(ps) == 0 {
+				ps = []int32{int32(pr.Intn(int(nparts)))}
+			}
+			return ps
+		}
+		// (no leader moves here: a fetch answered NOT_LEADER with the new leader attached is re-issued without back-off
+		// until the metadata loop runs the move, and kfake answers in zero virtual time, so the bubble's clock would
+		// never advance past the metadata loop's 10 ms pile-on sleep — an observation outside C13)
+		what := pr.Intn(3)
+		if kind != 5 && what == 1 {
+			what = 0
+		}
+		switch what {
+		case 0: // rewind some partitions: stops the session and starts a new one
+			m := map[int32]kgo.EpochOffset{}
+			for _, p := range some() {
+				m[p] = kgo.EpochOffset{Epoch: -1, Offset: int64(pr.Intn(3))}
+			}
+			log.Add("S:setoffsets")
+			cl.SetOffsets(map[string]map[int32]kgo.EpochOffset{"t": m})
+		case 1: // direct partitions: remove some, poll-less pause, add them back
+			ps := some()
+			log.Add("S:remove-add")
+			cl.RemoveConsumePartitions(map[string][]int32{"t": ps})
+			realPause(pickPause(pr))
+			add := map[int32]kgo.Offset{}
+			for _, p := range ps {
+				add[p] = kgo.NewOffset().AtStart()
+			}
+			cl.AddConsumePartitions(map[string]map[int32]kgo.Offset{"t": add})
+		case 2: // pausing takes sources out of the competition for slots, resuming puts them back
+			ps := some()
+			log.Add("S:pause-resume")
+			if pr.Chance(50) {
+				cl.PauseFetchTopics("t")
+				realPause(pickPause(pr))
+				cl.ResumeFetchTopics("t")
+			} else {
+				cl.PauseFetchPartitions(map[string][]int32{"t": ps})
+				realPause(pickPause(pr))
+				cl.ResumeFetchPartitions(map[string][]int32{"t": ps})
+			}
+		}
+		hx.St.Inc(fmt.Sprintf("scen.cls.slots.stop%d", what))
+	}
+	wg.Add(1)
+	go func() {
+		defer wg.Done()
+		pr := hx.NewRng(seed*37 + 11)
+		for {
+			select {
+			case <-stop:
+				return
+			default:
+			}
+			pctx, pc := context.WithTimeout(ctx, time.Duration(5+pr.Intn(60))*time.Millisecond)
+			var fs kgo.Fetches
+			if pr.Chance(50) {
+				fs = cl.PollFetches(pctx)
+			} else {
+				fs = cl.PollRecords(pctx, 1+pr.Intn(30))
+			}
+			pc()
+			if fs.IsClientClosed() {
+				return
+			}
+			polls.Add(1)
+			n := fs.NumRecords()
+			gotRecs.Add(int64(n))
+			if blockpoll && pr.Chance(70) {
+				cl.AllowRebalance()
+			}
+			if closeReq.Load() && closerIsMe {
+				realPause(pickPause(pr))
+				doClose()
+				return
+			}
+			if n > 0 && stopsLeft > 0 && pr.Chance(75) {
+				stopsLeft--
+				realPause(pickPause(pr))
+				stopSession(pr)
+			}
+			if pr.Chance(30) {
+				time.Sleep(time.Duration(pr.Intn(5)) * time.Millisecond)
+			}
+		}
+	}()
+	time.Sleep(time.Duration(closeat) * time.Millisecond)
+	switch mode {
+	case 1:
+		slow.Store(true)
+	case 2:
+		down.Store(true)
+		net_.KillAll()
+	}
+	if mode != 0 {
+		time.Sleep(time.Duration(rng.Intn(50)) * time.Millisecond)
+	}
+	closeReq.Store(true)
+	if !closerIsMe {
+		// Close from here, concurrently with the poller, which is in the middle of a poll or just behind one
+		realPause(pickPause(rng))
+		doClose()
+	}
+	<-closedCh
+	pctx, pc := context.WithTimeout(ctx, time.Second)
+	fs := cl.PollFetches(pctx)
+	pc()
+	if fs.IsClientClosed() {
+		log.Add("Pc:closed")
+	} else {
+		log.Add("Pc:other")
+	}
+	close(stop)
+	slow.Store(false)
+	down.Store(false)
+	wg.Wait()
+	cancel()
+	synctest.Wait()
+	time.Sleep(5 * time.Second)
+	leftover = leftoverEvent(log)
+	log.Add("Q")
+	hx.St.Inc(fmt.Sprintf("scen.cls.kind%d.mode%d", kind, mode))
+	hx.St.Inc(fmt.Sprintf("scen.cls.slots.brokers%d.maxfetch%d", brokers, maxFetch))
+	if gotRecs.Load() > 0 {
+		hx.St.Inc("scen.cls.slots.polled-records")
+	}
+	if closerIsMe {
+		hx.St.Inc("scen.cls.slots.close-behind-poll")
+	} else {
+		hx.St.Inc("scen.cls.slots.close-concurrent")
+	}
 	return fmt.Sprintf("cfg:%d:%d ", kind, mode) + log.String()
 }
